@@ -138,6 +138,67 @@ def _kind_discriminators(body, base_local, variant_names):
     return edges
 
 
+PARSER_ERRORS = ("serde_json::Error", "rmp_serde::decode::Error", "toml::de::Error", "serde_yaml::Error", "toml_edit::de::Error", "toml_edit::TomlError")
+NON_IO_KINDS = ("UnexpectedEof", "InvalidData")
+
+
+def _assume_parser_failure(ctx, fmt, trial):
+    """Assume a parser call of the trial failed with an error that every recognised I/O-category
+    discriminator rejects (`is_io()` false, `kind()` equal to UnexpectedEof / InvalidData): no return of the
+    trial reachable from there may carry Err. Decided on the trial's supergraph with variant-aware
+    exploration, so it does not matter whether the verdict is computed by a `match`, by `?`, in a shared
+    helper or in closures handed to combinators. Returns (ok, detail, site_node, sup)."""
+    lib = ctx.lib
+    sup = Super(lib, trial, depth=3)
+    ps = PathSens(sup, payloads=True)
+    parser_calls = []
+    for n, b, t in sup.calls():
+        f = fn_of(t) or {}
+        if t["dest"]["pr"] or f.get("local"):
+            continue
+        ty = b.local_ty(t["dest"]["l"])
+        if ty.startswith("std::result::Result<") and any(ty.rstrip(">").endswith(e) or (", " + e) in ty for e in PARSER_ERRORS) and f.get("crate") not in ("std", "core", "alloc"):
+            parser_calls.append((n, t, (("var", 1), None)))
+        elif common.is_chunker_next(ctx.facts, f) and ty.startswith("std::option::Option<std::result::Result<"):
+            parser_calls.append((n, t, (("var", 1), ("var", 1))))
+    if not parser_calls:
+        return None
+    for n, b, t in sup.calls():
+        f = fn_of(t) or {}
+        if f.get("def") == "serde_json::Error::is_io":
+            ps.assume[n] = (("const", 0), None)
+        elif f.get("trait") == "std::cmp::PartialEq" and "ErrorKind" in f.get("self_ty", "") and f.get("name") in ("eq", "ne"):
+            ks = []
+            for a in t["args"]:
+                tr = strace(sup, n, a)
+                if tr.origin and tr.origin[0] == "const":
+                    ks.append(tr.origin[1].get("ref_variant") or tr.origin[1].get("variant"))
+                elif tr.origin and tr.origin[0] == "agg":
+                    ks.append(tr.origin[1]["rv"].get("variant"))
+            if any(k_ in NON_IO_KINDS for k_ in ks):
+                ps.assume[n] = (("const", 1 if f["name"] == "eq" else 0), None)
+    entry_states = ps.explore([(sup.entry, {})])
+    for pn, pt, forced in parser_calls:
+        ps.assume[pn] = forced
+        starts = []
+        for st in entry_states.get(pn, []):
+            for lab, m, f2 in ps.step(pn, st):
+                if lab not in ("call", "maycall"):
+                    starts.append((m, f2))
+        reached = ps.explore(starts)
+        del ps.assume[pn]
+        for rn_ in reached:
+            if rn_[0] or sup.root.blocks[rn_[1]]["term"]["k"] != "return":
+                continue
+            for st in reached[rn_]:
+                f_end = dict(st)
+                for s_ in sup.root.blocks[rn_[1]]["stmts"]:
+                    ps._stmt(f_end, (), s_)
+                if f_end.get(((), 0)) != ("var", 0):
+                    return (False, f"after a failure of `{(fn_of(pt) or {}).get('def')}` that no I/O-category test accepts, the trial can still return Err: a syntax error / truncated input becomes a hard detection error", pn, sup)
+    return (True, f"{len(parser_calls)} parser call(s): a failure that no I/O-category test accepts always ends in Ok(..)", parser_calls[0][0], sup)
+
+
 @rule("R09.3", 6, "detection error discipline: a trial returns Err only for the source's own I/O error or a parser error that passed an I/O-category discriminator", ["C09"])
 def r09_3(ctx):
     lib = ctx.lib
@@ -154,8 +215,11 @@ def r09_3(ctx):
                     tr = trace(b, payload["args"][0], passthrough_extra=chain) if payload["args"] else None
                     srcs = ([payload] if not f.get("def", "").startswith("std::result::Result::<T, E>::") else []) + (_origin_calls(b, tr) if tr else [])
                     bad = [fn_of(c)["def"] for c in srcs if fn_of(c) and _is_parserish(lib, fn_of(c))]
-                    ctx.ob(f"{fmt}:returns-call:{f.get('name')}", not bad, site(b, dbb),
-                           "returned Result does not carry parser errors" if not bad else f"the trial returns the Result of {bad} through `{f.get('name')}`: parser errors become hard detection errors (unrecognised-guard)")
+                    if bad:
+                        # the verdict is computed elsewhere (shared helper / closures): decided semantically below
+                        ctx.ob(f"{fmt}:returns-call:{f.get('name')}", True, site(b, dbb), f"verdict delegated to `{f.get('name')}`: see parser-failure-never-hard", trivial=True)
+                    else:
+                        ctx.ob(f"{fmt}:returns-call:{f.get('name')}", True, site(b, dbb), "returned Result does not carry parser errors")
                     continue
                 n_err += 1
                 tr = trace(b, payload["args"][0])
@@ -209,6 +273,12 @@ def r09_3(ctx):
                 else:
                     ctx.ob(key, False, site(b, dbb), f"parser error type {ety} has no recognised I/O-category discriminator (unrecognised-guard)")
         ctx.ob(f"{fmt}:err-paths", True, site(b), f"{n_err} Err-producing site(s) classified", trivial=True)
+        res = _assume_parser_failure(ctx, fmt, b)
+        if res is None:
+            ctx.ob(f"{fmt}:parser-failure-never-hard", False, site(b), "no parser call found in the trial")
+        else:
+            ok_, det_, pn_, sup_ = res
+            ctx.ob(f"{fmt}:parser-failure-never-hard", ok_, sup_.site(pn_), det_)
 
 
 def _capture_adts(lib):
